@@ -305,9 +305,39 @@ def r2_lossless(rep, src, A):
     param = fset.params()[1] if len(fset.params()) > 1 else None
     M = A['mvar']
     per_path = []
+    # the components may be kept as one record (a named tuple defined at module level): its construction is the store of its fields
+    mod_ = fset.module
+    record_attr = [None]
+
+    def record_fields(call):
+        if not (isinstance(call, ast.Call) and isinstance(call.func, ast.Name)):
+            return None
+        tnode = mod_.const_nodes.get('', {}).get(call.func.id)
+        if not (isinstance(tnode, ast.Call) and norm(tnode.func) in ('collections.namedtuple', 'namedtuple') and len(tnode.args) == 2):
+            return None
+        try:
+            flds = mod_.fold(tnode.args[1], '')
+        except Exception:      # pylint: disable=broad-except
+            return None
+        if isinstance(flds, str):
+            flds = flds.replace(',', ' ').split()
+        out = dict(zip(flds, call.args))
+        for k_ in call.keywords:
+            if k_.arg not in flds or k_.arg in out:
+                return None
+            out[k_.arg] = k_.value
+        return (list(flds), out) if set(out) == set(flds) else None
     for p_ in A['rest']:
         ag, si = {}, None
+        evs = []
         for ev in p_.events:
+            rf_ = record_fields(ev[2]) if ev[0] == 'store' and ev[1].startswith('self.') else None
+            if rf_ is not None:
+                record_attr[0] = (ev[1][len('self.'):], rf_[0])
+                evs += [('store', 'self.__' + fld_, arg_) + tuple(ev[3:]) for fld_, arg_ in rf_[1].items()]
+            else:
+                evs.append(ev)
+        for ev in evs:
             if ev[0] != 'store' or not ev[1].startswith('self.'):
                 continue
             v = ev[2]
@@ -371,8 +401,25 @@ def r2_lossless(rep, src, A):
     for attr, g in attr_group.items():
         always = A['chosen_ok'].minus(rx.has_group(alpha, markers, g)).is_empty()
         shape[attr] = ('str',) if always else ('opt', ('str',))
+    if record_attr[0] is not None:
+        # self.<record> is a named tuple of the components, in the order of its fields (the writer may unpack it or read its fields)
+        ra_, order_ = record_attr[0]
+        if ra_.startswith('_BaseVersion__'):
+            ra_ = ra_[len('_BaseVersion'):]
+        rshape = {fld_: shape.get('__' + fld_, ('str',)) for fld_ in order_}
+        rshape['__order__'] = list(order_)
+        shape = dict(shape)
+        shape[ra_] = ('rec', rshape)
     selfobj = strlang.Obj('self', ('rec', shape))
     stores = {}
+
+    def slot_of(a):
+        # the template path under which the component `a` (spelled '__epoch' ...) is read
+        if record_attr[0] is not None:
+            ra2_ = record_attr[0][0]
+            ra2_ = ra2_[len('_BaseVersion'):] if ra2_.startswith('_BaseVersion__') else ra2_
+            return 'self.%s.%s' % (ra2_, a[2:] if a.startswith('__') else a)
+        return 'self.' + a
 
     # the recomposition may be delegated to a helper of the class and written as a join over a local table of (separator, component)
     # rows: the helper is put in place, the join over the table is the concatenation of its rows
@@ -385,13 +432,23 @@ def r2_lossless(rep, src, A):
         env = {'self': selfobj}
         if fupd.node.args.kwarg is not None:
             env[fupd.node.args.kwarg.arg] = {}          # called without keyword arguments: the stored components
+        other = None
         for st in upd_node.body:
             if isinstance(st, ast.Assign) and len(st.targets) == 1 and isinstance(st.targets[0], ast.Attribute) \
                     and norm(st.targets[0].value) == 'self':
-                return (st.targets[0].attr, it.ev(st.value, env)), it
+                a_ = st.targets[0].attr
+                if a_ in ('full_version', '__full_version', '_BaseVersion__full_version'):
+                    return ('full_version', it.ev(st.value, env)), it
+                # another attribute of the object (a remembered value that is reset when the version changes ...): not the
+                # recomposition unless nothing is stored to the full version at all
+                if other is None and not isinstance(st.value, ast.Constant):
+                    other = (a_, it.ev(st.value, env))
+                continue
             r = it.exec(st, env)
             if r is not None:
                 break
+        if other is not None:
+            return other, it
         raise AnalysisError('%s does not end in a store to self' % fupd.site)
     res, raised = strlang.worlds(run)
     if raised:
@@ -412,7 +469,7 @@ def r2_lossless(rep, src, A):
             pl = strlang.pred_lang(test, var, alpha)
             cur = langs.get(path, anyl)
             langs[path] = cur.intersect(pl if pol else pl.complement())
-        tags = {'self.' + a: g for a, g in attr_group.items()}
+        tags = {slot_of(a): g for a, g in attr_group.items()}
         tm, _te = strlang.template_langs(term, alpha, lambda p: langs.get(p, canon_int if p.startswith('int(') else anyl), tags, groups)
         # world "slot present but unused" (e.g. empty revision): the group still participates; the
         # template has no markers for it, so such parses are (rightly) not covered
@@ -428,7 +485,7 @@ def r2_lossless(rep, src, A):
     for dec, (_, term), it in res:
         langs = {}
         written = set(strlang.slots_of(term))
-        present = {a for a in attr_group if dec.get(('present', 'self.' + a), True) and any(p_ == 'self.' + a or p_ == 'int(self.%s)' % a for p_ in written)}
+        present = {a for a in attr_group if dec.get(('present', slot_of(a)), True) and any(p_ == slot_of(a) or p_ == 'int(%s)' % slot_of(a) for p_ in written)}
         has_epoch = any('epoch' in str(attr_group[a]) for a in present)
         has_rev = any('revision' in str(attr_group[a]) for a in present)
         for a, g in attr_group.items():
@@ -439,12 +496,12 @@ def r2_lossless(rep, src, A):
                 base = '[A-Za-z0-9+.~]*'
             else:
                 base = '[A-Za-z0-9.+~%s%s]+' % (':' if has_epoch else '', '-' if has_rev else '')
-            langs['self.' + a] = rx.regex_lang(base, 0, 'fullmatch', alpha=alpha)
+            langs[slot_of(a)] = rx.regex_lang(base, 0, 'fullmatch', alpha=alpha)
         for (path, test, var, pol) in it.preds:
             pl = strlang.pred_lang(test, var, alpha)
             if path in langs:
                 langs[path] = langs[path].intersect(pl if pol else pl.complement())
-        tags = {'self.' + a: g for a, g in attr_group.items()}
+        tags = {slot_of(a): g for a, g in attr_group.items()}
         tm, _te = strlang.template_langs(term, alpha, lambda p: langs.get(p, canon_int if p.startswith('int(') else anyl), tags, groups)
         w_ = tm.intersect(rx.lift(acc_erased, tm.markers)).not_subset_witness(accepted_marked)
         if w_ is not None and back is None:
@@ -551,22 +608,44 @@ def r3_check_then_commit(rep, src, A):
     values = [None, '', '7', 'a.b+c~d', '-', '7-', '2:3', ':', ' ', '7 ', 0]
     bad2 = None
     n2 = 0
+    # (the object is built by the class's own validated assignment and looked at through its own attribute interface -- __getattr__ --,
+    # whatever it keeps the components in: four attributes, one record ...)
+    fget = src.func(SITE + '.__getattr__')
+    rep.saw_func(fget)
+    NAMES = {'_BaseVersion__full_version': 'full_version', '_BaseVersion__epoch': 'epoch', '_BaseVersion__upstream_version': 'upstream_version',
+             '_BaseVersion__debian_revision': 'debian_revision'}
+
+    def observe(it_, me_):
+        out_ = {}
+        for k_, pub_ in NAMES.items():
+            try:
+                v_ = it_.call(H.Closure(fget.node, {}, me_, fget.cls), [pub_])
+                out_[k_] = v_.concrete() if hasattr(v_, 'concrete') else v_
+            except H.Raised as x_:
+                out_[k_] = 'raises %s' % x_.exc
+        return out_
     for ep, up, rev, full in starts:
         for attr, private in comps.items():
             for val in values:
                 heap = H.Heap(mod)
                 heap.native_regex = True
                 heap.intercept_setattr = True
-                me = heap.alloc('BaseVersion', {'_BaseVersion__epoch': ep, '_BaseVersion__upstream_version': up, '_BaseVersion__debian_revision': rev,
-                                                '_BaseVersion__full_version': full}, name='@version')
-                before = dict(heap.objs[me.name])
+                me = heap.alloc('BaseVersion', {}, name='@version')
+                it2 = H.Interp(heap)
+                try:
+                    it2.call(H.Closure(f.node, {}, me, f.cls), [full])
+                except H.Raised as x:
+                    raise AnalysisError('%s: the valid version %r is refused (%s) -- decided under C14.R1' % (f.site, full, x.exc))
+                before = observe(it2, me)
+                if before != {'_BaseVersion__full_version': full, '_BaseVersion__epoch': ep, '_BaseVersion__upstream_version': up, '_BaseVersion__debian_revision': rev}:
+                    bad2 = bad2 or 'Version(%r) has the components %r' % (full, before)
                 n2 += 1
                 try:
-                    H.Interp(heap).call(H.Closure(f2.node, {}, me, f2.cls), [attr, val])
+                    it2.call(H.Closure(f2.node, {}, me, f2.cls), [attr, val])
                     out = 'ok'
                 except H.Raised as x:
                     out = x.exc
-                after = dict(heap.objs[me.name])
+                after = observe(it2, me)
                 what = 'Version(%r).%s = %r' % (full, attr, val)
                 # string level: the version recomposed from the assigned value and the other two components as they were (a component
                 # that is None is left out together with its separator; any other value, the empty text included, is written)
